@@ -174,6 +174,7 @@ func srcYamlEdit(f *facts, o *out) {
 	}
 
 	srcEnvRmImports(f, o)
+	srcEnvRmRouting(f, o)
 	srcFixKeyComment(f, o)
 
 	// ---- Delete ---------------------------------------------------------------------------------------
@@ -285,6 +286,133 @@ func srcEnvRmImports(f *facts, o *out) {
 		o.add("Definition rm_handles_imports : bool := false.")
 	}
 	f.status["envrm_imports"] = "ok"
+}
+
+// cmd/esc/cli/env_rm.go: (a) does the command refuse an empty path itself, before it reads the definition
+// (`if len(path) == 0 { return <error> }` ahead of the GetEnvironment call), and (b) on which node does it call
+// Delete for a path below "values": on the node Get found under "values" (`YAMLSyntax{Node: valuesNode}.Delete(nil,
+// path)`), or from the root of the definition (`YAMLSyntax{Node: &docNode}.Delete(nil, append(resource.PropertyPath{
+// "values"}, path...))`)?  Only in the second form does Delete repair the line comment of the key "values".
+// A shape that is neither is reported as unrecognised and written as the unrepaired form, so that the side condition
+// of the theorems about line comments (C15_src_params_ok) does not hold for a source the model cannot follow.
+func srcEnvRmRouting(f *facts, o *out) {
+	const rel = "cmd/esc/cli/env_rm.go"
+	a := f.file(rel)
+	if a == nil {
+		o.add("Definition rm_guards_empty_path : bool := false. (* default *)")
+		o.add("Definition rm_values_from_root : bool := false. (* default *)")
+		f.status["envrm_empty_guard"] = "unrecognised"
+		f.status["envrm_values_root"] = "unrecognised"
+		return
+	}
+	// position of the first GetEnvironment call
+	getEnv := token.NoPos
+	ast.Inspect(a, func(n ast.Node) bool {
+		if se, ok := n.(*ast.SelectorExpr); ok && se.Sel.Name == "GetEnvironment" && getEnv == token.NoPos {
+			getEnv = se.Pos()
+		}
+		return true
+	})
+	guard, guardSeen := false, 0
+	ast.Inspect(a, func(n ast.Node) bool {
+		is, ok := n.(*ast.IfStmt)
+		if !ok || is.Else != nil || is.Init != nil || !isLenCmp(is.Cond, "path", token.EQL, "0") {
+			return true
+		}
+		guardSeen++
+		if guardBody(is.Body) == 2 && getEnv != token.NoPos && is.Pos() < getEnv {
+			guard = true
+		}
+		return true
+	})
+	switch {
+	case getEnv == token.NoPos || guardSeen > 1 || (guardSeen == 1 && !guard):
+		o.add("Definition rm_guards_empty_path : bool := false. (* default *)")
+		f.status["envrm_empty_guard"] = "unrecognised"
+	default:
+		o.add("Definition rm_guards_empty_path : bool := %s.", map[bool]string{true: "true", false: "false"}[guard])
+		f.status["envrm_empty_guard"] = "ok"
+	}
+
+	// the Delete calls: receiver `encoding.YAMLSyntax{Node: X}`, arguments (nil, P)
+	isDocRoot := func(e ast.Expr) bool {
+		u, ok := e.(*ast.UnaryExpr)
+		if !ok || u.Op != token.AND {
+			return false
+		}
+		id, ok := u.X.(*ast.Ident)
+		return ok && id.Name == "docNode"
+	}
+	isValuesPath := func(e ast.Expr) bool { // append(resource.PropertyPath{"values"}, path...)
+		c, ok := e.(*ast.CallExpr)
+		if !ok || len(c.Args) != 2 || c.Ellipsis == token.NoPos {
+			return false
+		}
+		if id, ok := c.Fun.(*ast.Ident); !ok || id.Name != "append" {
+			return false
+		}
+		cl, ok := c.Args[0].(*ast.CompositeLit)
+		if !ok || len(cl.Elts) != 1 || !selIs(cl.Type, "resource", "PropertyPath") {
+			return false
+		}
+		bl, ok := cl.Elts[0].(*ast.BasicLit)
+		if !ok || bl.Value != `"values"` {
+			return false
+		}
+		id, ok := c.Args[1].(*ast.Ident)
+		return ok && id.Name == "path"
+	}
+	nSub, nRootValues, nRootPath, nOther := 0, 0, 0, 0
+	ast.Inspect(a, func(n ast.Node) bool {
+		call, ok := n.(*ast.CallExpr)
+		if !ok {
+			return true
+		}
+		se, ok := call.Fun.(*ast.SelectorExpr)
+		if !ok || se.Sel.Name != "Delete" {
+			return true
+		}
+		cl, ok := se.X.(*ast.CompositeLit)
+		if !ok || !selIs(cl.Type, "encoding", "YAMLSyntax") || len(cl.Elts) != 1 || len(call.Args) != 2 {
+			nOther++
+			return true
+		}
+		kv, ok := cl.Elts[0].(*ast.KeyValueExpr)
+		if !ok {
+			nOther++
+			return true
+		}
+		argIsPath := false
+		if id, ok := call.Args[1].(*ast.Ident); ok && id.Name == "path" {
+			argIsPath = true
+		}
+		switch {
+		case isDocRoot(kv.Value) && isValuesPath(call.Args[1]):
+			nRootValues++
+		case isDocRoot(kv.Value) && argIsPath:
+			nRootPath++
+		case argIsPath:
+			if id, ok := kv.Value.(*ast.Ident); ok && id.Name == "valuesNode" {
+				nSub++
+			} else {
+				nOther++
+			}
+		default:
+			nOther++
+		}
+		return true
+	})
+	switch {
+	case nOther == 0 && nRootPath <= 1 && nSub == 1 && nRootValues == 0:
+		o.add("Definition rm_values_from_root : bool := false.")
+		f.status["envrm_values_root"] = "ok"
+	case nOther == 0 && nRootPath <= 1 && nSub == 0 && nRootValues == 1:
+		o.add("Definition rm_values_from_root : bool := true.")
+		f.status["envrm_values_root"] = "ok"
+	default:
+		o.add("Definition rm_values_from_root : bool := false. (* default *)")
+		f.status["envrm_values_root"] = "unrecognised"
+	}
 }
 
 // else { s.Style &^= yaml.TaggedStyle }
